@@ -36,18 +36,37 @@ fn recovery(rig: &mut Rig, spec: &Spec) -> Recov {
     Recov { effect, refreshes: rs.len(), power_at_refresh: rs.last().map(|r| r.power), partial_at_refresh: rs.last().map(|r| r.partial_mode), asleep: chip.asleep, outcome: outs }
 }
 
+/// a driver on an always-idle panel, or on one that is busy for three polls after every busy-raising command
+/// (wait loops then really iterate: status polls, delays and whatever else they do can fail too)
+fn mk_rig(spec: &'static Spec, busy: bool, fault: Option<(u64, u32)>) -> Result<Rig, (Outcome, crate::hal::BoardRef)> {
+    Rig::new(
+        spec,
+        |b| {
+            if busy {
+                b.busy_mode = crate::hal::BusyMode::Physical;
+                b.chips[0].busy.default_d = 3;
+            }
+            if let Some((k, id)) = fault {
+                b.arm_fault(k, id);
+            }
+        },
+        None,
+        false,
+    )
+}
+
 /// transfers of the target op in a dry run: (is_command, opcode context)
-fn dry_run(spec: &'static Spec, prefix: &[Op], target: Option<&Op>) -> Option<(Vec<(bool, u8)>, Recov)> {
+fn dry_run(spec: &'static Spec, prefix: &[Op], target: Option<&Op>, busy: bool) -> Option<(Vec<(bool, u8)>, Recov)> {
     match target {
         None => {
             // constructor
-            let mut rig = Rig::simple(spec);
+            let mut rig = mk_rig(spec, busy, None).ok()?;
             let v = transfers_of_last_op(&rig);
             let rec = recovery(&mut rig, spec);
             Some((v, rec))
         }
         Some(t) => {
-            let mut rig = Rig::simple(spec);
+            let mut rig = mk_rig(spec, busy, None).ok()?;
             for o in prefix {
                 if !rig.apply(o).is_ok() {
                     return None;
@@ -121,12 +140,13 @@ struct Case {
     prefix: Vec<Op>,
     target: Option<Op>,
     ctx_tag: &'static str,
+    busy: bool,
 }
 
 fn run_case(c: &Case, variant: &str, thorough: bool, seed: u64, rep: &mut Report) {
     let spec = c.spec;
     let entry = c.target.as_ref().map(|t| t.k.name()).unwrap_or("new").to_string();
-    let Some((tr, ref_rec)) = dry_run(spec, &c.prefix, c.target.as_ref()) else {
+    let Some((tr, ref_rec)) = dry_run(spec, &c.prefix, c.target.as_ref(), c.busy) else {
         rep.count("contexts_skipped_failing_without_fault", 1);
         return;
     };
@@ -165,7 +185,10 @@ fn run_case(c: &Case, variant: &str, thorough: bool, seed: u64, rep: &mut Report
                 "param"
             }
         };
-        let tags = vec![format!("during={:02X}", tr[k].1), format!("kind={}", kind)];
+        let mut tags = vec![format!("during={:02X}", tr[k].1), format!("kind={}", kind)];
+        if c.busy {
+            tags.push("panel-busy".into());
+        }
         let case = case_json(spec, variant, &ops).set("fault_index", k).set("of", tr.len()).set("context", c.ctx_tag);
         let mk = |class: &str, extra: Vec<String>, detail: String| {
             let mut t = tags.clone();
@@ -175,7 +198,7 @@ fn run_case(c: &Case, variant: &str, thorough: bool, seed: u64, rep: &mut Report
         let mut rig: Rig;
         let outcome: Outcome;
         match &c.target {
-            None => match Rig::new(spec, |b| b.arm_fault(k as u64, id), None, false) {
+            None => match mk_rig(spec, c.busy, Some((k as u64, id))) {
                 Ok(_r) => {
                     rep.fail(mk("ctor-returned-driver", vec![], "new() returned a driver although initialisation failed".into()));
                     continue;
@@ -196,7 +219,10 @@ fn run_case(c: &Case, variant: &str, thorough: bool, seed: u64, rep: &mut Report
                 }
             },
             Some(t) => {
-                rig = Rig::simple(spec);
+                rig = match mk_rig(spec, c.busy, None) {
+                    Ok(r) => r,
+                    Err(_) => continue,
+                };
                 let mut ok = true;
                 for o in &c.prefix {
                     if !rig.apply(o).is_ok() {
@@ -220,7 +246,10 @@ fn run_case(c: &Case, variant: &str, thorough: bool, seed: u64, rep: &mut Report
             continue;
         }
         rep.count("faults_fired", 1);
-        rep.nontrivial(hash_str(&format!("{}|{}|{}|{}", spec.name, ops_short(&ops), c.ctx_tag, k)));
+        rep.nontrivial(hash_str(&format!("{}|{}|{}|{}|{}", spec.name, ops_short(&ops), c.ctx_tag, k, c.busy)));
+        if c.busy {
+            rep.count("faults_fired_on_busy_panel", 1);
+        }
         let mut failed = false;
         match &outcome {
             Outcome::Err(e) if *e == id => {}
@@ -268,7 +297,8 @@ pub fn run(ctx: &Ctx) -> Report {
     let mut cases = Vec::new();
     for spec in panels_for(ctx) {
         let syms = syms(spec);
-        cases.push(Case { spec, prefix: vec![], target: None, ctx_tag: "ctor" });
+        cases.push(Case { spec, prefix: vec![], target: None, ctx_tag: "ctor", busy: false });
+        cases.push(Case { spec, prefix: vec![], target: None, ctx_tag: "ctor", busy: true });
         // state-changing predecessors used as second context
         let mut preds: Vec<Vec<Op>> = Vec::new();
         if let Some(p) = syms.iter().find(|s| s.iter().any(|o| matches!(o.k, K::UpdatePartial | K::PartialOld | K::UpdateOld | K::UpdatePartial2))) {
@@ -288,7 +318,7 @@ pub fn run(ctx: &Ctx) -> Report {
                 let row = ((spec.w + 7) / 8) as usize;
                 for len in [full / 2, full.saturating_sub(row), full + row] {
                     if len > 0 && len != full {
-                        cases.push(Case { spec, prefix: vec![], target: Some(Op::img(k, Img::Coded { salt: 0xC04 + len as u32, len })), ctx_tag: "other-length" });
+                        cases.push(Case { spec, prefix: vec![], target: Some(Op::img(k, Img::Coded { salt: 0xC04 + len as u32, len })), ctx_tag: "other-length", busy: false });
                     }
                 }
             }
@@ -297,7 +327,15 @@ pub fn run(ctx: &Ctx) -> Report {
             for cut in 0..s.len() {
                 let prefix: Vec<Op> = s[..cut].to_vec();
                 let target = s[cut].clone();
-                cases.push(Case { spec, prefix: prefix.clone(), target: Some(target.clone()), ctx_tag: "fresh" });
+                cases.push(Case { spec, prefix: prefix.clone(), target: Some(target.clone()), ctx_tag: "fresh", busy: false });
+                // the same on a busy panel; behind a display call as well, so that the target starts while the
+                // panel is still busy where the driver's display call returns early
+                cases.push(Case { spec, prefix: prefix.clone(), target: Some(target.clone()), ctx_tag: "fresh", busy: true });
+                if cut == 0 && !matches!(target.k, K::WakeUp) {
+                    let mut pf = vec![Op::new(K::Display)];
+                    pf.extend(prefix.clone());
+                    cases.push(Case { spec, prefix: pf, target: Some(target.clone()), ctx_tag: "after-display", busy: true });
+                }
                 for p in &preds {
                     // keep the protocol grammar: 2in13_v2 partial update is not legal in quick mode
                     if spec.name == "epd2in13_v2" && p.iter().any(|o| o.k == K::SetRefresh) && target.k == K::UpdatePartial {
@@ -305,7 +343,7 @@ pub fn run(ctx: &Ctx) -> Report {
                     }
                     let mut pf = p.clone();
                     pf.extend(prefix.clone());
-                    cases.push(Case { spec, prefix: pf, target: Some(target.clone()), ctx_tag: "after-predecessor" });
+                    cases.push(Case { spec, prefix: pf, target: Some(target.clone()), ctx_tag: "after-predecessor", busy: false });
                 }
             }
         }
